@@ -76,3 +76,19 @@ Proof.
     induction row as [|[[m x] y] r IHr]; intros best Hb; simpl; [exact Hb|]. apply IHr. lia. }
   apply G. lia.
 Qed.
+
+(* ---- the Gotoh oracle against exhaustive enumeration (finite: every pair of words of length 1..3 over
+   {A, C, G}, four scoring schemes incl. opening dearer than extending and a match dearer than an opening) *)
+From GA.Spec Require Import LocalEnum.
+Definition small_words : list (list byte) := upto 3 [x41; x43; x47].
+Definition small_schemes : list (Z * Z * Z * Z) := [(2, -2, -4, -2); (10, -8, -6, -1); (2, -2, -20, -1); (4, -2, -2, -2)].
+Lemma gotoh_matches_enumeration_small :
+  forall sc s1 s2, In sc small_schemes -> In s1 small_words -> In s2 small_words ->
+  let '(m, x, o, e) := sc in gotoh_best (mm m x) o e s1 s2 = best_enum (mm m x) o e s1 s2.
+Proof.
+  assert (H : forallb (fun sc : Z * Z * Z * Z => let '(m, x, o, e) := sc in agree (mm m x) o e small_words) small_schemes = true)
+    by (vm_compute; reflexivity).
+  intros sc s1 s2 Hsc H1 H2. rewrite forallb_forall in H. specialize (H sc Hsc).
+  destruct sc as [[[m x] o] e]. unfold agree in H. rewrite forallb_forall in H. specialize (H s1 H1).
+  rewrite forallb_forall in H. specialize (H s2 H2). apply Z.eqb_eq in H. exact H.
+Qed.
